@@ -217,7 +217,7 @@ def run_one(ck, prog):
                     rets = list(mdc.ret_expr().values()) if mdc else []
                     is_dir = len(rets) == 1 and mentions(rets[0], mdc.prov, lambda z: z[0] == "const" and z[2] and z[2].endswith("Mode::S_IFDIR")) and \
                         mentions(rets[0], mdc.prov, lambda z: z[0] == "const" and z[2] and z[2].endswith("Mode::S_IFMT")) and mentions(rets[0], mdc.prov, lambda z: z[0] == "field" and z[2] == "st_mode") and \
-                        mentions(rets[0], mdc.prov, lambda z: z[0] == "call" and (z[1] or "").endswith("PartialEq::eq"))
+                        mentions(rets[0], mdc.prov, lambda z: z[0] == "call" and (z[1] or "").endswith(("PartialEq::eq", "PartialEq>::eq")))
                 by_stat = any(cfg.dominates(sb, b["id"]) for sb in stats)
                 ck.ob("C14.4", f"exists-means-directory|ok#{n_ok}", is_dir and by_stat, fn=helper["path"], site=ctx.site(b["id"]),
                       detail="success after the whole-path mkdir failed must be dominated by stat(whole path) and `st_mode & S_IFMT == S_IFDIR`")
@@ -240,7 +240,10 @@ def run_one(ck, prog):
                                 if v is not None and 0 < v < 4096 and mentions(other, c2.prov, lambda w: w[0] == "field" and w[2] == "code"):
                                     codes.add(v)
                         if f[0] == "truth" and f[2] is True and isinstance(f[1], tuple) and f[1][0] == "call" and (f[1][1] or "").endswith("PartialEq::eq"):
-                            for a in f[1][2]:
+                            is_code = lambda a: mentions(a, c2.prov, lambda w: w[0] == "field" and w[2] == "code")  # noqa: E731
+                            if not any(is_code(a) for a in f[1][2]):
+                                continue
+                            for a in [a for a in f[1][2] if not is_code(a)]:     # the constant side only (the error's own provenance holds unrelated constants)
                                 for z in walk_deep(a, c2.prov):
                                     if z[0] == "const" and isinstance(z[1], int) and 0 < z[1] < 4096:
                                         codes.add(z[1])
